@@ -72,6 +72,9 @@ func driveBare(t *testing.T, prop string, kinds []int, nCases, nOps int) {
 				switch {
 				case op < 9: // TryAcquire
 					key := int64(1 + r.Intn(len(cfg.Parts)+2)) // includes keys matching no partition
+					if kind == 4 && r.Bool(6) {
+						key = 7 // a value that no predicate matches (see predValue)
+					}
 					if kind <= 2 {
 						key = 0
 					}
@@ -367,11 +370,11 @@ func driveLimiter(t *testing.T, prop string, kinds []int, nCases, nOps int, h li
 							h.afterComplete(l, k, oc, call, now, fail)
 						}
 					case op < 21:
-						est := r.Pick(0, -3, 1, 2, 3, 5, 8, 13, 50, int64(l.Script.est))
+						est := r.Pick(0, -3, 1, 2, 3, 5, 8, 13, 50, int64(l.Script.Want()))
 						if h.pickEst != nil {
 							est = h.pickEst(r)
 						}
-						l.Script.est = int(est)
+						l.Script.Script(int(est))
 						tr.Op(3, []int64{est}, l.State())
 						hist = append(hist, []int64{3, est})
 						if h.afterScript != nil {
@@ -420,8 +423,8 @@ func driveLimiter(t *testing.T, prop string, kinds []int, nCases, nOps int, h li
 					if r.Bool(50) {
 						dropAt = r.Intn(n)
 					}
-					if int64(l.Script.est) < 1 {
-						l.Script.est = 5
+					if int64(l.Script.Want()) < 1 {
+						l.Script.Script(5)
 						tr.Op(3, []int64{5}, l.State())
 						hist = append(hist, []int64{3, 5})
 					}
@@ -468,7 +471,7 @@ func driveLimiter(t *testing.T, prop string, kinds []int, nCases, nOps int, h li
 					}
 					if r.Bool(50) {
 						est := r.Pick(1, 2, 4, 7, 12, 30)
-						l.Script.est = int(est)
+						l.Script.Script(int(est))
 						tr.Op(3, []int64{est}, l.State())
 						hist = append(hist, []int64{3, est})
 					}
